@@ -148,3 +148,12 @@ def describe(exc):
         f = frames[-1]
         where = "%s:%s" % (os.path.basename(f.filename), f.lineno)
     return "%s: %s @ %s" % (type(exc).__name__, str(exc)[:160], where)
+
+
+def node_path(n):
+    """the driver's own walk to the root (not the node's full_name attribute)"""
+    names = [n.name]
+    while n.parent is not n:
+        n = n.parent
+        names.append(n.name)
+    return ">".join(reversed(names))
